@@ -51,7 +51,7 @@ class C19(PropBase):
         return []
 
     def n_random(self, tier):
-        return 60 if tier == 'quick' else 3000
+        return 400 if tier == 'quick' else 6000
 
     def random_cases(self, rnd, n):
         for _ in range(n):
